@@ -86,7 +86,18 @@ def armsRt (s : Sender) (t : MType) (maxMsg maxChunk msgLen dataLen : Nat) (res 
       let last := (cs.getLast?.map List.length).getD hdr - hdr
       let (ps, mp) := paddingSize s t last
       [if ps = 0 then "pad-none" else if ps = mp then "pad-min" else if t ≠ .opn ∧ ps = 16 then "pad-max" else "pad-mid"] ++
-      (if t = .opn then [if mp = 2 then "opn-extra-padding-byte" else "opn-one-padding-byte"] else [])
+      (if t = .opn then
+         (if mp = 2 then
+            -- the two length bytes at their carries: n = ps - 2 is what they encode
+            let n := ps - 2
+            ["opn-extra-padding-byte",
+             if n < 255 then "pad2-n-lt-255" else if n = 255 then "pad2-n-255-lo-ff-hi-0"
+             else if n = 256 then "pad2-n-256-lo-00-hi-1" else if n = 257 then "pad2-n-257-lo-01-hi-1"
+             else "pad2-n-gt-257",
+             if n = 0 then "pad2-n-0" else if n = 1 then "pad2-n-1" else "pad2-n-ge-2",
+             cmp3 "pad2-ps-vs-257" ps 257]
+          else ["opn-one-padding-byte"])
+       else [])
     [cnt, sec] ++ extra ++ pad
 
 def rtStep (s : Sender) (t : MType) (seq req maxMsg maxChunk msgLen nidLen : Nat) : String :=
